@@ -187,7 +187,11 @@ func probes(k string, otherIDs []int32) []string {
 			out = append(out, k[:len(k)-1]+string([]byte{last - 1}))
 		}
 	}
+	// the same key under other contract ids (for native keys one other id only)
 	if len(k) >= 4 {
+		if k[3] == 0xff && len(otherIDs) > 1 {
+			otherIDs = otherIDs[:1]
+		}
 		for _, id := range otherIDs {
 			o := trieKey(id, []byte(k[4:]))
 			if o != k {
@@ -237,40 +241,59 @@ func scripts(w *chainx.World, h uint32, committee util.Uint160) []nscript {
 			[]any{chainx.OpFind, []byte("a"), 0}, []any{chainx.OpFind, []byte("a"), 128}, []any{chainx.OpFind, []byte{}, 2},
 		})
 	}
+	// native getters, several calls per invocation (each historic invocation
+	// re-initialises the native caches from the trie, which is the expensive part)
 	neo, gas, pol, mgmt := nativehashes.NeoToken, nativehashes.GasToken, nativehashes.PolicyContract, nativehashes.ContractManagement
+	var grp []byte
+	call := func(hash util.Uint160, method string, args ...any) {
+		grp = append(grp, chainx.CallScript(hash, method, args...)...)
+	}
+	flush := func(name string) {
+		out = append(out, nscript{name, grp})
+		grp = nil
+	}
+	for i := 1; i <= 3; i++ {
+		call(gas, "balanceOf", chainx.Acc(i).ScriptHash())
+	}
+	call(gas, "balanceOf", committee)
+	call(gas, "balanceOf", w.UA.Hash)
+	call(gas, "totalSupply")
+	flush("gas.balanceOf(acc1..3,committee,UA)+totalSupply")
 	for i := 1; i <= 3; i++ {
 		a := chainx.Acc(i).ScriptHash()
-		add(fmt.Sprintf("gas.balanceOf(acc%d)", i), gas, "balanceOf", a)
-		add(fmt.Sprintf("neo.balanceOf(acc%d)", i), neo, "balanceOf", a)
-		add(fmt.Sprintf("neo.getAccountState(acc%d)", i), neo, "getAccountState", a)
-		add(fmt.Sprintf("neo.unclaimedGas(acc%d)", i), neo, "unclaimedGas", a, int64(h+1))
+		call(neo, "balanceOf", a)
+		call(neo, "getAccountState", a)
+		call(neo, "unclaimedGas", a, int64(h+1))
 	}
-	add("gas.balanceOf(committee)", gas, "balanceOf", committee)
-	add("gas.balanceOf(UA)", gas, "balanceOf", w.UA.Hash)
-	add("gas.totalSupply", gas, "totalSupply")
-	add("neo.totalSupply", neo, "totalSupply")
-	add("neo.getCandidates", neo, "getCandidates")
-	add("neo.getCommittee", neo, "getCommittee")
-	add("neo.getNextBlockValidators", neo, "getNextBlockValidators")
-	add("neo.getGasPerBlock", neo, "getGasPerBlock")
-	add("neo.getRegisterPrice", neo, "getRegisterPrice")
-	add("neo.getCandidateVote(acc1)", neo, "getCandidateVote", chainx.Acc(1).PublicKey().Bytes())
-	add("policy.getFeePerByte", pol, "getFeePerByte")
-	add("policy.getExecFeeFactor", pol, "getExecFeeFactor")
-	add("policy.getStoragePrice", pol, "getStoragePrice")
-	add("policy.isBlocked(acc3)", pol, "isBlocked", chainx.Acc(3).ScriptHash())
+	flush("neo.balanceOf+getAccountState+unclaimedGas(acc1..3)")
+	call(neo, "totalSupply")
+	call(neo, "getCandidates")
+	call(neo, "getCommittee")
+	call(neo, "getNextBlockValidators")
+	call(neo, "getGasPerBlock")
+	call(neo, "getRegisterPrice")
+	call(neo, "getCandidateVote", chainx.Acc(1).PublicKey().Bytes())
+	flush("neo.candidates+committee+validators+prices")
+	call(pol, "getFeePerByte")
+	call(pol, "getExecFeeFactor")
+	call(pol, "getStoragePrice")
+	call(pol, "isBlocked", chainx.Acc(3).ScriptHash())
+	call(nativehashes.LedgerContract, "currentIndex")
+	call(nativehashes.LedgerContract, "currentHash")
+	flush("policy.getters+ledger.current")
 	for _, u := range us {
-		add("management.getContract("+u.n+")", mgmt, "getContract", u.h)
-		add("management.hasMethod("+u.n+")", mgmt, "hasMethod", u.h, "run", 1)
+		call(mgmt, "getContract", u.h)
+		call(mgmt, "hasMethod", u.h, "run", 1)
 	}
-	add("management.getMinimumDeploymentFee", mgmt, "getMinimumDeploymentFee")
-	add("ledger.currentIndex", nativehashes.LedgerContract, "currentIndex")
-	add("ledger.currentHash", nativehashes.LedgerContract, "currentHash")
+	call(mgmt, "getMinimumDeploymentFee")
+	flush("management.getContract+hasMethod(UA,UB,UC)")
 	// historic designations are looked up with a backwards seek from the index
-	for idx := int64(1); idx <= 8; idx++ {
-		add(fmt.Sprintf("roles.getDesignatedByRole(oracle,%d)", idx), nativehashes.RoleManagement, "getDesignatedByRole", int64(noderoles.Oracle), idx)
+	for idx := int64(1); idx <= int64(h+1); idx++ {
+		call(nativehashes.RoleManagement, "getDesignatedByRole", int64(noderoles.Oracle), idx)
 	}
-	add("roles.getDesignatedByRole(notary,next)", nativehashes.RoleManagement, "getDesignatedByRole", int64(noderoles.P2PNotary), int64(h+1))
+	call(nativehashes.RoleManagement, "getDesignatedByRole", int64(noderoles.P2PNotary), int64(h+1))
+	flush("roles.getDesignatedByRole(oracle,1..next)")
+	add("roles.getDesignatedByRole(oracle,next+1)", nativehashes.RoleManagement, "getDesignatedByRole", int64(noderoles.Oracle), int64(h+2))
 	return out
 }
 
